@@ -164,7 +164,16 @@ class SchedPool(object):
                     here = os.getcwd()
                     os.chdir(self.fork_cwd)       # the worker's directory, not the caller's
             except OSError:
-                here = None
+                # the directory the workers were started in has been REMOVED since: a worker still sits in it, and every relative
+                # name it opens fails -- the task runs in a directory that is removed under its feet
+                try:
+                    import tempfile
+                    here = os.getcwd()
+                    ghost = tempfile.mkdtemp(prefix="gone_")
+                    os.chdir(ghost)
+                    os.rmdir(ghost)
+                except OSError:
+                    here = None
             try:
                 r = fun(arg)
                 res[k - 1] = _roundtrip(r) if self.sched.copy else r
